@@ -160,3 +160,274 @@ Proof.
     destruct (queue s) as [|[e p|si r tg p] q]; (split; [reflexivity|]); try apply dle_refl.
     apply dsame_dle, dsame_set_queue.
 Qed.
+
+(* ---------- rule(): the remembered call-stack count is safe, the core of the exit path ignores the detail ---------- *)
+Definition csn_cond (fr : rule_frame) (s : pst) : Prop :=
+  (if Nat.ltb (rf_max fr) (max_position s) then 0 else rf_csn fr) <= length (call_stacks s).
+
+(* what rule_ok / rule_err guarantee about the detail fields of their result *)
+Definition rule_exit (fr : rule_frame) (s' : pst) (r : res) : Prop :=
+  res_all (fun x => pa_enabled x = pa_enabled s' /\ max_position x = max_position s' /\ input x = input s' /\ csn_cond fr x) r.
+
+Lemma try_add_rule_to_stack_good s rule fr : csn_cond fr s ->
+  exists s3, try_add_rule_to_stack s rule (rf_csn fr) (rf_max fr) = Some s3 /\ erase_detail s3 = erase_detail s /\
+             pa_enabled s3 = pa_enabled s /\ max_position s3 = max_position s /\ input s3 = input s /\ csn_cond fr s3.
+Proof.
+  intros H. destruct (try_add_rule_to_stack_ok s rule (rf_csn fr) (rf_max fr) H) as (s3 & E & C & M & K).
+  exists s3. split; [exact E|]. split; [now apply same_core_erase|]. destruct C.
+  split; [auto|]. split; [auto|]. split; [auto|]. unfold csn_cond. rewrite M. exact K.
+Qed.
+
+Lemma rule_ok_erase rule fr fr' s' : fr_core_eq fr fr' -> csn_cond fr s' ->
+  map_res erase_detail (rule_ok rule fr s') = rule_ok rule fr' (erase_detail s') /\ rule_exit fr s' (rule_ok rule fr s').
+Proof.
+  intros (Ep & Ei & Ea & En & Et) CS. unfold rule_ok. cbn [erase_detail lookahead].
+  rewrite <- Ep, <- Ei, <- Ea, <- En, <- Et.
+  set (sa := if lk_eqb (lookahead s') LNeg then track s' rule (rf_pos fr) (rf_pai fr) (rf_nai fr) (rf_attempts fr) else s').
+  assert (Ha : (if lk_eqb (lookahead s') LNeg then track (erase_detail s') rule (rf_pos fr) (rf_pai fr) (rf_nai fr) (rf_attempts fr)
+                else erase_detail s') = erase_detail sa).
+  { unfold sa. destruct (lk_eqb (lookahead s') LNeg); [apply track_erase|reflexivity]. }
+  rewrite Ha. clear Ha.
+  assert (Da : dsame s' sa) by (unfold sa; destruct (lk_eqb (lookahead s') LNeg); [apply track_dsame|apply dsame_refl]).
+  destruct Da as (D1 & D2 & D3 & D4).
+  assert (CSa : csn_cond fr sa) by (unfold csn_cond in *; rewrite D2, D3; exact CS).
+  rewrite emits_erase. cbn [erase_detail queue pos].
+  destruct (emits sa).
+  - destruct (set_start_end (queue sa) (rf_index fr) (length (queue sa))) as [q|]; [|split; [reflexivity|exact I]].
+    set (sb := set_queue sa (QEnd (rf_index fr) rule None (pos sa) :: q)).
+    change (set_queue (erase_detail sa) (QEnd (rf_index fr) rule None (pos sa) :: q)) with (erase_detail sb).
+    cbn [erase_detail pa_enabled].
+    change (pa_enabled sb) with (pa_enabled sa).
+    destruct (pa_enabled sa) eqn:En'.
+    + destruct (try_add_rule_to_stack_good sb rule fr CSa) as (s3 & E3 & Er & P3 & M3 & I3 & C3).
+      rewrite E3. cbn [lift map_res]. rewrite Er. split; [reflexivity|].
+      unfold sb in P3, M3, I3. cbn in P3, M3, I3. cbn. repeat split; try congruence; try exact C3.
+    + cbn [map_res]. split; [reflexivity|]. cbn. repeat split; try congruence; try exact CSa.
+  - cbn [erase_detail pa_enabled]. destruct (pa_enabled sa) eqn:En'.
+    + destruct (try_add_rule_to_stack_good sa rule fr CSa) as (s3 & E3 & Er & P3 & M3 & I3 & C3).
+      rewrite E3. cbn [lift map_res]. rewrite Er. split; [reflexivity|].
+      cbn. repeat split; try congruence; try exact C3.
+    + cbn [map_res]. split; [reflexivity|]. cbn. repeat split; try congruence; try exact CSa.
+Qed.
+
+Lemma rule_err_erase rule fr fr' s' : fr_core_eq fr fr' -> csn_cond fr s' ->
+  map_res erase_detail (rule_err rule fr s') = rule_err rule fr' (erase_detail s') /\ rule_exit fr s' (rule_err rule fr s').
+Proof.
+  intros (Ep & Ei & Ea & En & Et) CS. unfold rule_err. cbn [erase_detail lookahead].
+  rewrite <- Ep, <- Ei, <- Ea, <- En, <- Et. cbv zeta.
+  (* the state after the optional tracking step, on both sides *)
+  assert (R1 : exists s3,
+     (if negb (lk_eqb (lookahead s') LNeg)
+      then if pa_enabled (track s' rule (rf_pos fr) (rf_pai fr) (rf_nai fr) (rf_attempts fr))
+           then try_add_rule_to_stack (track s' rule (rf_pos fr) (rf_pai fr) (rf_nai fr) (rf_attempts fr)) rule (rf_csn fr) (rf_max fr)
+           else Some (track s' rule (rf_pos fr) (rf_pai fr) (rf_nai fr) (rf_attempts fr))
+      else Some s') = Some s3 /\
+     (if negb (lk_eqb (lookahead s') LNeg)
+      then if pa_enabled (track (erase_detail s') rule (rf_pos fr) (rf_pai fr) (rf_nai fr) (rf_attempts fr))
+           then try_add_rule_to_stack (track (erase_detail s') rule (rf_pos fr) (rf_pai fr) (rf_nai fr) (rf_attempts fr)) rule (rf_csn fr') (rf_max fr')
+           else Some (track (erase_detail s') rule (rf_pos fr) (rf_pai fr) (rf_nai fr) (rf_attempts fr))
+      else Some (erase_detail s')) = Some (erase_detail s3) /\
+     pa_enabled s3 = pa_enabled s' /\ max_position s3 = max_position s' /\ input s3 = input s' /\ csn_cond fr s3).
+  { destruct (negb (lk_eqb (lookahead s') LNeg)).
+    - rewrite track_erase. cbn [erase_detail pa_enabled].
+      set (t := track s' rule (rf_pos fr) (rf_pai fr) (rf_nai fr) (rf_attempts fr)).
+      destruct (track_dsame s' rule (rf_pos fr) (rf_pai fr) (rf_nai fr) (rf_attempts fr)) as (D1 & D2 & D3 & D4). fold t in D1, D2, D3, D4.
+      assert (CSt : csn_cond fr t) by (unfold csn_cond in *; rewrite D2, D3; exact CS).
+      destruct (pa_enabled t) eqn:En'.
+      + destruct (try_add_rule_to_stack_good t rule fr CSt) as (s3 & E3 & Er & P3 & M3 & I3 & C3).
+        exists s3. rewrite E3, Er. repeat split; try congruence; try exact C3.
+      + exists t. repeat split; try congruence; try exact CSt.
+    - exists s'. repeat split; auto. }
+  destruct R1 as (s3 & E1 & E2 & P3 & M3 & I3 & C3).
+  rewrite E1, E2. cbn [map_res]. rewrite emits_erase. cbn [erase_detail queue].
+  destruct (emits s3); (split; [reflexivity|]); cbn; repeat split; try congruence; try exact C3.
+Qed.
+
+(* rule(): entry + exit *)
+Lemma csn_cond_enter s1 s' :
+  dle (snd (rule_enter s1)) s' -> csn_cond (fst (rule_enter s1)) s'.
+Proof.
+  intros (_ & [M1 M2] & _).
+  destruct (rule_enter_spec s1) as (_ & _ & Rc & Rm & _ & _).
+  destruct (rule_enter_dsame s1) as (_ & Q2 & Q3 & _).
+  unfold csn_cond. rewrite Rc, Rm. rewrite Q2 in M1, M2. rewrite Q3 in M2.
+  destruct (Nat.ltb (max_position s1) (max_position s')) eqn:L; [lia|]. apply Nat.ltb_ge in L. apply M2. lia.
+Qed.
+
+Lemma rule_exit_dle s1 s' r :
+  dle (snd (rule_enter s1)) s' -> rule_exit (fst (rule_enter s1)) s' r -> dpost s1 r.
+Proof.
+  intros D X.
+  assert (G : forall x, pa_enabled x = pa_enabled s' /\ max_position x = max_position s' /\ input x = input s' /\
+                        csn_cond (fst (rule_enter s1)) x -> dle s1 x).
+  { intros x (P & M & In & C). destruct D as (D1 & [M1 M2] & D3).
+    destruct (rule_enter_dsame s1) as (Q1 & Q2 & Q3 & Q4).
+    destruct (rule_enter_spec s1) as (_ & _ & Rc & Rm & _ & _).
+    unfold csn_cond in C. rewrite Rc, Rm, M in C.
+    split; [congruence|]. split; [|congruence]. split; [lia|]. intros Hx.
+    destruct (Nat.ltb (max_position s1) (max_position s')) eqn:L; [apply Nat.ltb_lt in L; lia|exact C]. }
+  destruct r; cbn in *; auto.
+Qed.
+
+(* ---------- checkpoints ---------- *)
+Lemma restore_st_erase x : restore_st (erase_detail x) = option_map erase_detail (restore_st x).
+Proof. unfold restore_st. cbn [erase_detail stack]. destruct (restore (stack x)); reflexivity. Qed.
+Lemma checkpoint_ok_erase x : checkpoint_ok (erase_detail x) = option_map erase_detail (checkpoint_ok x).
+Proof. unfold checkpoint_ok. cbn [erase_detail stack]. destruct (clear_snapshot (stack x)); reflexivity. Qed.
+Lemma restore_st_dsame y x : restore_st y = Some x -> dsame y x.
+Proof. unfold restore_st. destruct (restore (stack y)); cbn; [intros [= <-]; repeat split|discriminate]. Qed.
+Lemma checkpoint_ok_dsame y x : checkpoint_ok y = Some x -> dsame y x.
+Proof. unfold checkpoint_ok. destruct (clear_snapshot (stack y)); cbn; [intros [= <-]; repeat split|discriminate]. Qed.
+
+(* exit glue: `lift k o` where k tags the state with Ok or Err *)
+Lemma lift_erase (k : pst -> res) (o : option pst) (s0 y : pst) :
+  (forall x, k x = ROk x) \/ (forall x, k x = RErr x) ->
+  (forall x, o = Some x -> dsame y x) -> dle s0 y ->
+  map_res erase_detail (lift k o) = lift k (option_map erase_detail o) /\ dpost s0 (lift k o).
+Proof.
+  intros K H D. destruct o as [x|]; cbn [lift option_map]; [|split; [reflexivity|exact I]].
+  specialize (H x eq_refl). destruct K as [K|K]; rewrite !K; cbn; (split; [reflexivity|]); eapply dle_dsame_r; eauto.
+Qed.
+
+Section Erase.
+Variable cfg : config.
+Variable E : env.
+
+Theorem exec_erase : forall fuel p s,
+  map_res erase_detail (exec cfg E fuel p s) = exec cfg E fuel p (erase_detail s) /\ dpost s (exec cfg E fuel p s).
+Proof.
+  induction fuel as [|fuel IH]; intros p s; [split; [reflexivity|exact I]|].
+  destruct p; cbn [exec].
+  - (* PPrim *) apply exec_prim_erase.
+  - (* PRule *)
+    rewrite inc_call_erase. destruct (inc_call s) as [s1|] eqn:Ei; cbn [option_map]; [|split; [reflexivity|apply dle_refl]].
+    pose proof (inc_call_dsame _ _ Ei) as D1.
+    destruct (rule_enter_erase s1) as [Es Ef].
+    pose proof (csn_cond_enter s1) as CE. pose proof (rule_exit_dle s1) as RX.
+    destruct (rule_enter s1) as [fr s2]. destruct (rule_enter (erase_detail s1)) as [fr' s2'].
+    cbn [fst snd] in Es, Ef, CE, RX. subst s2'.
+    destruct (IH p s2) as [C D]. rewrite <- C.
+    destruct (exec cfg E fuel p s2) as [s'|s'|k|]; cbn [map_res]; cbn in D.
+    + destruct (rule_ok_erase r fr fr' s' Ef (CE s' D)) as [H1 H2]. split; [exact H1|].
+      eapply dpost_dsame_l; [exact D1|]. eapply RX; eauto.
+    + destruct (rule_err_erase r fr fr' s' Ef (CE s' D)) as [H1 H2]. split; [exact H1|].
+      eapply dpost_dsame_l; [exact D1|]. eapply RX; eauto.
+    + split; [reflexivity|exact I].
+    + split; [reflexivity|exact I].
+  - (* PSequence *)
+    rewrite inc_call_erase. destruct (inc_call s) as [s1|] eqn:Ei; cbn [option_map]; [|split; [reflexivity|apply dle_refl]].
+    pose proof (inc_call_dsame _ _ Ei) as D1.
+    change (checkpoint (erase_detail s1)) with (erase_detail (checkpoint s1)).
+    destruct (IH p (checkpoint s1)) as [C D]. rewrite <- C.
+    assert (Dc : dsame s (checkpoint s1)) by (eapply dsame_trans; [exact D1|apply dsame_set_stack]).
+    destruct (exec cfg E fuel p (checkpoint s1)) as [s'|s'|k|]; cbn [map_res]; cbn in D.
+    + rewrite checkpoint_ok_erase. apply lift_erase with (y := s'); auto.
+      * apply checkpoint_ok_dsame.
+      * eapply dle_dsame_l; eauto.
+    + cbn [erase_detail queue pos].
+      change (set_queue (set_pos (erase_detail s') (pos s1)) (vtruncate (length (queue s1)) (queue s')))
+        with (erase_detail (set_queue (set_pos s' (pos s1)) (vtruncate (length (queue s1)) (queue s')))).
+      rewrite restore_st_erase. apply lift_erase with (y := set_queue (set_pos s' (pos s1)) (vtruncate (length (queue s1)) (queue s'))); auto.
+      * apply restore_st_dsame.
+      * eapply dle_dsame_l; [exact Dc|]. eapply dle_dsame_r; [exact D|]. repeat split.
+    + split; [reflexivity|exact I].
+    + split; [reflexivity|exact I].
+  - (* PRepeat *)
+    rewrite inc_call_erase. destruct (inc_call s) as [s1|] eqn:Ei; cbn [option_map]; [|split; [reflexivity|apply dle_refl]].
+    pose proof (inc_call_dsame _ _ Ei) as D1.
+    destruct (IH (PRepeatLoop p) s1) as [C D]. split; [exact C|]. eapply dpost_dsame_l; eauto.
+  - (* PRepeatLoop *)
+    destruct (IH p s) as [C D]. rewrite <- C.
+    destruct (exec cfg E fuel p s) as [s'|s'|k|]; cbn [map_res]; cbn in D.
+    + destruct (IH (PRepeatLoop p) s') as [C' D']. split; [exact C'|].
+      destruct (exec cfg E fuel (PRepeatLoop p) s'); cbn in *; auto; eapply dle_trans; eauto.
+    + split; [reflexivity|exact D].
+    + split; [reflexivity|exact I].
+    + split; [reflexivity|exact I].
+  - (* POptional *)
+    rewrite inc_call_erase. destruct (inc_call s) as [s1|] eqn:Ei; cbn [option_map]; [|split; [reflexivity|apply dle_refl]].
+    pose proof (inc_call_dsame _ _ Ei) as D1.
+    destruct (IH p s1) as [C D]. rewrite <- C.
+    destruct (exec cfg E fuel p s1) as [s'|s'|k|]; cbn [map_res]; cbn in D; (split; [reflexivity|]); try exact I;
+      cbn; eapply dle_dsame_l; eauto.
+  - (* PLookahead *)
+    rewrite inc_call_erase. destruct (inc_call s) as [s1|] eqn:Ei; cbn [option_map]; [|split; [reflexivity|apply dle_refl]].
+    pose proof (inc_call_dsame _ _ Ei) as D1.
+    cbn [erase_detail lookahead pos].
+    set (s2 := set_lookahead s1 (enter_lookahead positive (lookahead s1))).
+    change (checkpoint (set_lookahead (erase_detail s1) (enter_lookahead positive (lookahead s1)))) with (erase_detail (checkpoint s2)).
+    destruct (IH p (checkpoint s2)) as [C D]. rewrite <- C.
+    assert (Dc : dsame s (checkpoint s2)).
+    { eapply dsame_trans; [exact D1|]. eapply dsame_trans; [apply dsame_set_lookahead|apply dsame_set_stack]. }
+    destruct (exec cfg E fuel p (checkpoint s2)) as [s'|s'|k|]; cbn [map_res]; cbn in D.
+    + change (set_lookahead (set_pos (erase_detail s') (pos s1)) (lookahead s1))
+        with (erase_detail (set_lookahead (set_pos s' (pos s1)) (lookahead s1))).
+      rewrite restore_st_erase. apply lift_erase with (y := set_lookahead (set_pos s' (pos s1)) (lookahead s1)).
+      * destruct positive; [left|right]; reflexivity.
+      * apply restore_st_dsame.
+      * eapply dle_dsame_l; [exact Dc|]. eapply dle_dsame_r; [exact D|]. repeat split.
+    + change (set_lookahead (set_pos (erase_detail s') (pos s1)) (lookahead s1))
+        with (erase_detail (set_lookahead (set_pos s' (pos s1)) (lookahead s1))).
+      rewrite restore_st_erase. apply lift_erase with (y := set_lookahead (set_pos s' (pos s1)) (lookahead s1)).
+      * destruct positive; [right|left]; reflexivity.
+      * apply restore_st_dsame.
+      * eapply dle_dsame_l; [exact Dc|]. eapply dle_dsame_r; [exact D|]. repeat split.
+    + split; [reflexivity|exact I].
+    + split; [reflexivity|exact I].
+  - (* PAtomic *)
+    rewrite inc_call_erase. destruct (inc_call s) as [s1|] eqn:Ei; cbn [option_map]; [|split; [reflexivity|apply dle_refl]].
+    pose proof (inc_call_dsame _ _ Ei) as D1.
+    cbn [erase_detail atomicity].
+    destruct (negb (atom_eqb (atomicity s1) a)).
+    + change (set_atomicity (erase_detail s1) a) with (erase_detail (set_atomicity s1 a)).
+      destruct (IH p (set_atomicity s1 a)) as [C D]. rewrite <- C.
+      assert (Dc : dsame s (set_atomicity s1 a)) by (eapply dsame_trans; [exact D1|apply dsame_set_atomicity]).
+      destruct (exec cfg E fuel p (set_atomicity s1 a)) as [s'|s'|k|]; cbn [map_res]; cbn in D; (split; [reflexivity|]); try exact I;
+        cbn; (eapply dle_dsame_l; [exact Dc|]); (eapply dle_dsame_r; [exact D|]); repeat split.
+    + destruct (IH p s1) as [C D]. rewrite <- C.
+      destruct (exec cfg E fuel p s1) as [s'|s'|k|]; cbn [map_res]; cbn in D; (split; [reflexivity|]); try exact I;
+        cbn; eapply dle_dsame_l; eauto.
+  - (* PStackPush *)
+    rewrite inc_call_erase. destruct (inc_call s) as [s1|] eqn:Ei; cbn [option_map]; [|split; [reflexivity|apply dle_refl]].
+    pose proof (inc_call_dsame _ _ Ei) as D1.
+    destruct (IH p s1) as [C D]. rewrite <- C. cbn [erase_detail pos].
+    destruct (exec cfg E fuel p s1) as [s'|s'|k|]; cbn [map_res]; cbn in D.
+    + cbn [erase_detail pos stack input]. destruct (Nat.ltb (pos s') (pos s1)); (split; [reflexivity|]); [exact I|].
+      cbn. eapply dle_dsame_l; [exact D1|]. eapply dle_dsame_r; [exact D|]. repeat split.
+    + split; [reflexivity|]. cbn. eapply dle_dsame_l; eauto.
+    + split; [reflexivity|exact I].
+    + split; [reflexivity|exact I].
+  - (* PRestoreOnErr *)
+    change (checkpoint (erase_detail s)) with (erase_detail (checkpoint s)).
+    destruct (IH p (checkpoint s)) as [C D]. rewrite <- C.
+    assert (Dc : dsame s (checkpoint s)) by apply dsame_set_stack.
+    destruct (exec cfg E fuel p (checkpoint s)) as [s'|s'|k|]; cbn [map_res]; cbn in D.
+    + rewrite checkpoint_ok_erase.
+      apply lift_erase with (y := s'); [left; reflexivity|apply checkpoint_ok_dsame|eapply dle_dsame_l; eauto].
+    + rewrite restore_st_erase.
+      apply lift_erase with (y := s'); [right; reflexivity|apply restore_st_dsame|eapply dle_dsame_l; eauto].
+    + split; [reflexivity|exact I].
+    + split; [reflexivity|exact I].
+  - (* PAndThen *)
+    destruct (IH p1 s) as [C D]. rewrite <- C.
+    destruct (exec cfg E fuel p1 s) as [s'|s'|k|]; cbn [map_res]; cbn in D.
+    + destruct (IH p2 s') as [C' D']. split; [exact C'|].
+      destruct (exec cfg E fuel p2 s'); cbn in *; auto; eapply dle_trans; eauto.
+    + split; [reflexivity|exact D].
+    + split; [reflexivity|exact I].
+    + split; [reflexivity|exact I].
+  - (* POrElse *)
+    destruct (IH p1 s) as [C D]. rewrite <- C.
+    destruct (exec cfg E fuel p1 s) as [s'|s'|k|]; cbn [map_res]; cbn in D.
+    + split; [reflexivity|exact D].
+    + destruct (IH p2 s') as [C' D']. split; [exact C'|].
+      destruct (exec cfg E fuel p2 s'); cbn in *; auto; eapply dle_trans; eauto.
+    + split; [reflexivity|exact I].
+    + split; [reflexivity|exact I].
+  - (* PIfNonAtomic *)
+    cbn [erase_detail atomicity]. destruct (atom_eqb (atomicity s) NonAtomic); apply IH.
+  - (* PCall *)
+    destruct (E f); [apply IH|split; [reflexivity|exact I]].
+Qed.
+
+End Erase.
